@@ -12,36 +12,61 @@ from hypothesis import strategies as st
 from props.c11 import build_generator, cube_coords, min_steps
 from vlib import gen, ref
 from vlib.case import hash_noise, make_grid, tdtype
-from vlib.core import EPS32, Facet, Violation, check_close, eps_of
+from vlib.core import EPS32, Facet, Skip, Violation, check_close, eps_of
 
 PROPERTY = "C10"
 MANIFEST = {
     "text": "Generated FlowField / FlowFields objects (D in {2,3}, N in 1..3 with one shared or per-field distinct oriented "
-            "anisotropic grids, both align_corners flags, float32/float64) carrying world-affine, smooth and hash-noise vector "
+            "anisotropic grids, both align_corners flags incl. mixed flags within a batch, float32/float64; obtained from the "
+            "constructor, from_images()/from_image(), batch(), indexing or clone()) carrying world-affine, smooth and hash-noise vector "
             "fields are (1) converted between all 4x4 ordered pairs of Axes and compared per item with the vector map of an "
-            "independent float64 grid model, with round-trip and path-independence laws; (2) given in each of the four "
+            "independent float64 grid model, with round-trip and path-independence laws, and combinations of fields given in "
+            "different representations must raise or be expressed consistently; (2) given in each of the four "
             "representations to exp(), warp_image() and sample() and the world-space results compared across representations "
             "and pinned to closed forms (scaling-and-squaring power of an invariant affine velocity; linear-ramp image warped by "
-            "a world-affine flow; world-affine field evaluated at the target grid's world points); (3) exported with sitk()/write "
-            "and read back with an independent reader. Exploration with Hypothesis, no absence proof.",
+            "a world-affine flow; world-affine field evaluated at the target grid's world points; stored vectors at target points "
+            "that coincide with samples of the field). Target grids of sample() are unrelated overlapping grids (any size, or the "
+            "size of the source) and grids derived from the field's own grid - same domain at another size (resize, reshape, "
+            "downsample, upsample, corners or extent kept), same grid with the other align_corners flag, cropped / padded / "
+            "region-of-interest / narrowed sub-domains, translated and mirrored copies - built from a float64 descriptor or with "
+            "deepali's own Grid methods, passed as one grid, a sequence of one or of N grids, or as normalised coordinates (per "
+            "item or shared, grid-shaped or point lists); (2d) the image operations a flow field inherits (resize, downsample, "
+            "upsample, avg_pool, crop, pad, center_crop, center_pad, region_of_interest) are judged like sample() on the derived grid, one "
+            "representation per case against the WORLD-axes run; (3) exported with sitk()/write and read back with an independent "
+            "reader. Exploration with Hypothesis, no absence proof.",
     "note": "Trusted: vlib/ref.py GridModel (float64 numpy; self-tested against SimpleITK in C02), the affine closed form of "
             "props/c11.py, SimpleITK as independent reader of exported fields. Tolerances are 64 (conversions) or 256 (flow "
             "operations) times eps32 times a condition term computed from the reference model, because deepali keeps grid "
-            "attributes in float32. File round trip only through SimpleITK-backed formats (NRRD); MetaImage/NIfTI belong to C18.",
+            "attributes in float32. File round trip only through SimpleITK-backed formats (NRRD); MetaImage/NIfTI belong to C18. "
+            "Grids derived with Grid methods must agree with the float64 model of the derivation to 64 eps32 (else the case is "
+            "skipped and counted: the derivation itself is C03's subject).",
     "technique": "property-based testing (Hypothesis) with a float64 reference model, closed-form oracles and metamorphic "
                  "representation-independence relations",
 }
 ASSUMPTIONS = [
     "grids: size 2..10 per axis (cube axes need n >= 2), spacing in [0.1, 10], |center| <= 200 (<= 30 in the resampling facet, "
     "where float32 world coordinates of the point map - C01/C02's subject - would otherwise dominate the bound), |det direction| = 1",
-    "a case counts as non-trivial only if its derived bound is <= 2 % of the displacement effect it guards (exp/warp_image/sample)",
+    "a case counts as non-trivial only if its derived bound is <= 2 % of the displacement effect it guards (exp/warp_image/sample/regrid)",
     "fields are generated in sample units of their own grid (affine |M| <= 0.3, |t| <= 1.5 samples; smooth/noise amplitude <= 2 "
     "samples) and expressed in each representation with the float64 model, so 'world-affine' holds by construction",
-    "image warping assumes the documented precondition that image and flow field share the sampling grid; interpolation is "
+    "image warping assumes that image and flow field share the sampling grid (warp_image() never reads the grid of the image; an "
+    "image on another grid is sampled as if it were on the flow grid, which no representation can make right); the image grid may "
+    "carry the other align_corners flag (equal grids in the sense of Grid.__eq__); interpolation is "
     "linear with zeros/border padding (scalar padding constants and reflect padding are representation dependent by definition)",
     "exp(): closed form only for constructed invariant affine velocities with scale > 0; smooth velocities (Lipschitz constant "
     "<= 0.6 samples/sample before scaling) are compared across representations only (C11 pins the core expv)",
-    "FlowFields.sample(Tensor) returns the stored vectors (axes r of the old grid) without rescaling, as documented",
+    "FlowFields.sample(Tensor) returns the stored vectors (axes r of the old grid) without rescaling, as documented; the "
+    "normalised coordinates are read in the cube convention of the align_corners flag of the first grid of the batch",
+    "sample(mode='nearest'): only representation independence and the stored vectors at coinciding samples are asserted (the "
+    "sampling positions do not depend on the representation)",
+    "derived target grids have integer sizes: downsample() only along axes of even size >= 4 (Grid keeps fractional sizes "
+    "otherwise, which the float64 model does not cover); resample(spacing) and pyramid() are not generated for the same reason",
+    "regrid facet: the result is read with the axes label it reports (keeping the label and re-expressing the vectors, or "
+    "switching to WORLD, would both be accepted); violation kinds carry the representation and which domain the operation keeps, so "
+    "that each combination is matched separately; downsample/upsample smooth the field, so only resize and avg_pool are pinned to "
+    "the affine closed form; tensor-named operations (narrow, flip, indexing) are pinned to plain torch values in C19 and not judged here",
+    "fields given in different representations: from_images(), torch.cat and + of such fields must raise ValueError (as the code "
+    "documents) or yield the consistent world-space result; only silent relabelling is a violation",
 ]
 
 AX = ["grid", "cube", "cube_corners", "world"]
@@ -204,14 +229,39 @@ def setup(case):
     return ms, gr
 
 
+# How the flow object handed to the operation under test was obtained (the representation label must survive each of them).
+ROUTES = ["direct", "direct", "direct", "items", "clone", "index"]
+
+
 def build_flow(case, reps, axes_name, gr, dt, default_axes=False):
-    from deepali.data import FlowField, FlowFields
+    """FlowField / FlowFields holding the per-item arrays `reps` (..., X, D), labelled with axes `axes_name`.
+
+    route "direct": constructor; "items": FlowFields.from_images(list of FlowField) / FlowField.from_image(Image, axes);
+    "clone": clone() of the constructed object; "index": sub-batch batch[0:N] of a longer batch (FlowField.batch() if N = 1) /
+    item batch[0] of a FlowFields batch."""
+    from deepali.data import FlowField, FlowFields, Image
 
     ax = None if default_axes else _A(axes_name)
+    route = "direct" if default_axes else case.get("route", "direct")
+    shared = len(case["grids"]) == 1
     if case["kind"] == "FlowField":
-        return FlowField(torch.tensor(chfirst(reps[0]), dtype=dt), gr[0], ax)
+        x = torch.tensor(chfirst(reps[0]), dtype=dt)
+        if route == "items":
+            return FlowField.from_image(Image(x, gr[0]), axes=ax)
+        if route == "index":
+            return FlowFields(x.unsqueeze(0), [gr[0]], ax)[0]
+        f = FlowField(x, gr[0], ax)
+        return f.clone() if route == "clone" else f
     data = torch.tensor(np.stack([chfirst(r) for r in reps]), dtype=dt)
-    return FlowFields(data, gr[0] if len(case["grids"]) == 1 else list(gr), ax)
+    if route == "items":
+        return FlowFields.from_images([FlowField(data[i], gr[i], ax) for i in range(len(reps))])
+    if route == "index":
+        if len(reps) == 1:
+            return FlowField(data[0], gr[0], ax).batch()
+        more = FlowFields(torch.cat([data, -data[:1]], dim=0), list(gr) + [gr[0]], ax)
+        return more[0 : len(reps)]
+    f = FlowFields(data, gr[0] if shared else list(gr), ax)
+    return f.clone() if route == "clone" else f
 
 
 def items(obj):
@@ -303,7 +353,8 @@ def axes_cases(draw):
     D = draw(gen.dims())
     case = draw(grid_sets(D, 10 if D == 2 else 6))
     case.update({"D": D, "a": draw(st.sampled_from(AX)), "b": draw(st.sampled_from(AX)), "c": draw(st.sampled_from(AX)),
-                 "dtype": draw(gen.dtypes()), "field": draw(fields(D)), "ctor": draw(st.sampled_from(["explicit", "default"]))})
+                 "dtype": draw(gen.dtypes()), "field": draw(fields(D)), "ctor": draw(st.sampled_from(["explicit", "default"])),
+                 "route": draw(st.sampled_from(ROUTES))})
     return case
 
 
@@ -342,9 +393,65 @@ def run_axes(case):
         worst = max(worst, check_close(iv[i], ic[i], bnd, "axes_path_dependent", f"{a}->{c} vs {a}->{b}->{c}, item {i}"))
     if not torch.equal(f.tensor(), f0) or f.axes() is not _A(a):
         raise Violation("input_modified", "axes() modified the flow field it was called on")
+    if a != c:
+        mixed_axes(case, ms, gr, dt, eps, f, va, a, c)
     labs, objq, distinct = grid_labels(case)
     nt = objq and a != b and (N == 1 or distinct)
-    return {"ratio": worst, "nontrivial": nt, "labels": labs + [f"{a}->{b}", "field=" + case["field"]["type"], "ctor=" + ("default" if use_default else "explicit")]}
+    return {"ratio": worst, "nontrivial": nt, "labels": labs + [f"{a}->{b}", "field=" + case["field"]["type"], "ctor=" + ("default" if use_default else "explicit"),
+                                                                "route=" + ("direct" if use_default else case.get("route", "direct"))]}
+
+
+def mixed_axes(case, ms, gr, dt, eps, f, va, a: str, c: str):
+    """Fields given in different representations cannot be combined as they are: deepali documents a ValueError.  Either that,
+    or the combination is expressed consistently - but never vectors of one representation under the label of another."""
+    from deepali.data import FlowField, FlowFields
+
+    N = case["N"]
+    uw = [m.vectors(v, a, "world") for m, v in zip(ms, va)]
+    vc = [m.vectors(v, a, c) for m, v in zip(ms, va)]
+
+    def world_of(obj, scale, what, kind):
+        its = items(obj)
+        q = obj.axes().value
+        for i, m in enumerate(ms[: len(its)]):
+            bnd = KC * eps * scale * (conv_scale(m, va[i], a, "world") + conv_scale(m, vc[i], c, "world"))
+            check_close(m.vectors(its[i], q, "world"), scale * uw[i], 2 * bnd, kind, f"{what} (result labelled {q}), item {i}")
+
+    g = build_flow(case, vc, c, gr, dt)
+    try:
+        z = f + g
+    except ValueError:
+        z = None
+    if isinstance(z, (FlowField, FlowFields)):
+        world_of(z, 2.0, f"sum of the field in {a} axes and the same field in {c} axes", "mixed_axes_sum_mislabelled")
+    if case["kind"] == "FlowFields":
+        parts = [FlowField(torch.tensor(chfirst(va[0]), dtype=dt), gr[0], _A(a))]
+        parts += [FlowField(torch.tensor(chfirst(vc[i]), dtype=dt), gr[i], _A(c)) for i in range(1, N)]
+        parts.append(FlowField(torch.tensor(chfirst(vc[0]), dtype=dt), gr[0], _A(c)))
+        try:
+            z = FlowFields.from_images(parts)
+        except ValueError:
+            z = None
+        if z is not None:
+            its = items(z)
+            q = z.axes().value
+            mm, exp = list(ms) + [ms[0]], list(uw) + [uw[0]]
+            for i in range(len(its)):
+                bnd = KC * eps * (conv_scale(mm[i], va[i % N], a, "world") + conv_scale(mm[i], vc[i % N], c, "world"))
+                check_close(mm[i].vectors(its[i], q, "world"), exp[i], 2 * bnd, "mixed_axes_batch_mislabelled",
+                            f"from_images() of fields in {a} and {c} axes (result labelled {q}), item {i}")
+        try:
+            z = torch.cat([f, g], dim=0)
+        except ValueError:
+            z = None
+        if isinstance(z, FlowFields):
+            its = items(z)
+            q = z.axes().value
+            for i in range(len(its)):
+                j = i % N
+                bnd = KC * eps * (conv_scale(ms[j], va[j], a, "world") + conv_scale(ms[j], vc[j], c, "world"))
+                check_close(ms[j].vectors(its[i], q, "world"), uw[j], 2 * bnd, "mixed_axes_batch_mislabelled",
+                            f"torch.cat of batches in {a} and {c} axes (result labelled {q}), item {i}")
 
 
 # ---------------------------------------------------------------------------------------
@@ -357,7 +464,7 @@ def exp_cases(draw):
     case = draw(grid_sets(D, 9 if D == 2 else 6))
     ftype = draw(st.sampled_from(["affine", "affine", "smooth"]))
     case.update({"D": D, "dtype": draw(gen.dtypes()), "ftype": ftype, "src": draw(st.sampled_from(["model", "model", "axes"])),
-                 "steps": draw(st.one_of(st.none(), st.integers(0, 6)))})
+                 "steps": draw(st.one_of(st.none(), st.integers(0, 6))), "route": draw(st.sampled_from(ROUTES))})
     if ftype == "affine":
         case.update({
             "gac": draw(st.booleans()),
@@ -445,7 +552,8 @@ def run_exp(case):
     tight = all(bounds[i] <= 0.02 * float(np.abs(world["cube"][i]).max()) for i in range(N))
     return {"ratio": worst, "nontrivial": objq and moving and tight and steps >= 1 and (N == 1 or distinct),
             "labels": labs + ["field=" + case["ftype"], f"steps={steps}", "steps_arg=" + ("default" if "steps" not in kw else "given"),
-                              "scale=" + ("default" if scale is None else "given"), "src=" + case["src"]]}
+                              "scale=" + ("default" if scale is None else "given"), "src=" + case["src"],
+                              "route=" + case.get("route", "direct")]}
 
 
 # ---------------------------------------------------------------------------------------
@@ -467,7 +575,8 @@ def warp_cases(draw):
                  "alpha": draw(st.lists(gen.qfloat(-3.0, 3.0, 0.01), min_size=C * D, max_size=C * D)),
                  "beta": draw(st.lists(gen.qfloat(-10.0, 10.0, 0.1), min_size=C, max_size=C)),
                  "sampling": draw(st.sampled_from([None, "linear"])),
-                 "padding": draw(st.sampled_from([None, "zeros", "border"]))})
+                 "padding": draw(st.sampled_from([None, "zeros", "border"])),
+                 "route": draw(st.sampled_from(ROUTES)), "img_ac": draw(st.sampled_from(["same", "same", "flip"]))})
     return case
 
 
@@ -494,10 +603,13 @@ def run_warp(case):
     for j in range(n_img):
         alpha, beta = ramp_params(case, j)
         ramps.append(ic[j] @ alpha.T + beta)  # (..., X, C)
+    # the image grids are the flow grids; "flip": equal grids (Grid.__eq__) that carry the other align_corners flag, which
+    # only says how the *image* would be resized and must not change how the flow vectors are read
+    gimg = [g.align_corners(not g.align_corners()) for g in gr] if case.get("img_ac") == "flip" else gr
     if form == "Image":
-        image = Image(torch.tensor(chfirst(ramps[0]), dtype=dt), gr[0])
+        image = Image(torch.tensor(chfirst(ramps[0]), dtype=dt), gimg[0])
     else:
-        gi = [gr[min(j, N - 1)] for j in range(n_img)]
+        gi = [gimg[min(j, N - 1)] for j in range(n_img)]
         image = ImageBatch(torch.tensor(np.stack([chfirst(x) for x in ramps]), dtype=dt), gi)
     kw = {}
     if case["sampling"] is not None:
@@ -561,36 +673,264 @@ def run_warp(case):
     tight = all(b <= 0.02 * sg for b, sg in zip(bounds, signal))
     return {"ratio": worst, "nontrivial": objq and moving and tight and n_inside >= 2 and (N == 1 or distinct or form == "Image"),
             "labels": labs + ["field=" + case["field"]["type"], "image=" + form, f"pad={case['padding']}", "src=" + case["src"],
+                              "route=" + case.get("route", "direct"), "img_ac=" + case.get("img_ac", "same"),
                               "inside>=half" if n_inside * 2 >= sum(x.size for x in inside) else "inside<half"]}
 
 
 # ---------------------------------------------------------------------------------------
 # (2c, 3) sample(): resampling on other grids
 
+# Relation of the target grid to the grid of the field it resamples.  "unrelated": any orientation / spacing / size with the
+# centre inside the field; "samesize": unrelated, but with the number of samples of the source; the others are the grids a user
+# derives from the field's own grid (same domain at another resolution, same grid with the other align_corners flag,
+# cropped / padded sub-domains, translated or mirrored copies).
+REL_CLASSES = ["unrelated", "unrelated", "samesize", "resize", "resize", "resize", "acflip", "crop", "crop", "translate", "mirror"]
+
+
+def derive_target(g: dict, spec: dict) -> dict:
+    """Descriptor of the grid obtained from grid descriptor g by the derivation `spec` (float64 arithmetic, no deepali).
+
+    resize: same centre, new size m; spacing s (n-1)/(m-1) if corner points are preserved (align_corners), s n/m if the
+    extent is preserved.  crop: per axis lo/hi samples removed (negative: added), spacing kept, centre moved by
+    A (lo - hi)/2.  pool: windows of k samples.  translate: centre moved by A off (off in samples).  mirror: axis k
+    reversed about the centre."""
+    t = {k: (list(v) if isinstance(v, list) else v) for k, v in g.items()}
+    n = np.array(g["size"], dtype=np.float64)
+    s = np.array(g["spacing"], dtype=np.float64)
+    m = ref.GridModel.from_desc(g)
+    rel = spec["rel"]
+    if rel == "resize":
+        new = np.array(spec["size"], dtype=np.float64)
+        keep_corners = g["ac"] if spec.get("rac") is None else spec["rac"]
+        sp = s * (n - 1) / (new - 1) if keep_corners else s * n / new
+        t["size"] = [int(v) for v in spec["size"]]
+        t["spacing"] = [float(v) for v in sp]
+    elif rel == "crop":
+        lo = np.array([p[0] for p in spec["num"]], dtype=np.float64)
+        hi = np.array([p[1] for p in spec["num"]], dtype=np.float64)
+        t["size"] = [int(v) for v in (n - lo - hi)]
+        t["center"] = [float(v) for v in (m.c + m.A @ ((lo - hi) / 2))]
+    elif rel == "pool":  # non-overlapping windows of k samples: floor(n/k) samples at the window centres, spacing k s
+        k = np.array(spec["k"], dtype=np.float64)
+        new = np.floor(n / k)
+        t["size"] = [int(v) for v in new]
+        t["spacing"] = [float(v) for v in s * k]
+        t["center"] = [float(v) for v in (m.o + m.A @ ((k - 1) / 2 + k * (new - 1) / 2))]
+    elif rel == "translate":
+        t["center"] = [float(v) for v in (m.c + m.A @ np.array(spec["off"], dtype=np.float64))]
+    elif rel == "mirror":
+        t["flip"][spec["axis"]] = -t["flip"][spec["axis"]]
+    elif rel != "acflip":
+        raise ValueError(rel)
+    if spec.get("tac") is not None:
+        t["ac"] = bool(spec["tac"])
+    return t
+
+
+def api_target(g, spec: dict):
+    """The same derivation through deepali's own Grid methods (what a user would write); None if spec["via"] == "desc"."""
+    via = spec.get("via", "desc")
+    if via == "desc":
+        return None
+    rel = spec["rel"]
+    if rel == "resize":
+        kw = {} if spec.get("rac") is None else {"align_corners": spec["rac"]}
+        size = [int(v) for v in spec["size"]]
+        if via == "resize":
+            t = g.resize(size, **kw)
+        elif via == "resize_args":
+            t = g.resize(*size, **kw)
+        elif via == "reshape":
+            t = g.reshape(size[::-1], **kw)
+        elif via == "downsample":
+            t = g.downsample(1, dims=spec.get("dims"), **kw)
+        elif via == "upsample":
+            t = g.upsample(1, dims=spec.get("dims"), **kw)
+        else:
+            raise ValueError(via)
+    elif rel == "crop":
+        num = [int(v) for p in spec["num"] for v in p]
+        if via == "crop_num":
+            t = g.crop(num=num)
+        elif via == "pad_num":
+            t = g.pad(num=[-v for v in num])
+        elif via == "crop_margin":
+            t = g.crop(margin=[int(p[0]) for p in spec["num"]])
+        elif via == "pad_margin":
+            t = g.pad(margin=[-int(p[0]) for p in spec["num"]])
+        elif via == "center_crop" or via == "center_pad":
+            size = [int(n - p[0] - p[1]) for n, p in zip(g.size(), spec["num"])]
+            t = g.center_crop(size) if via == "center_crop" else g.center_pad(size)
+        elif via == "narrow":
+            (d,) = [i for i, p in enumerate(spec["num"]) if p[0] or p[1]]
+            t = g.narrow(d, int(spec["num"][d][0]), int(g.size()[d] - spec["num"][d][0] - spec["num"][d][1]))
+        elif via == "roi":
+            t = g.region_of_interest([int(p[0]) for p in spec["num"]], [int(n - p[0] - p[1]) for n, p in zip(g.size(), spec["num"])])
+        else:
+            raise ValueError(via)
+    elif rel == "acflip":
+        t = g
+    else:
+        raise ValueError(rel)
+    if spec.get("tac") is not None:
+        t = t.align_corners(bool(spec["tac"]))
+    return t
+
+
+def grids_agree(g, t: ref.GridModel, eps: float = EPS32) -> bool:
+    """deepali grid g (derived with Grid methods) equals the float64 model t of the same derivation, to float32 accuracy."""
+    if [int(v) for v in g.size()] != [int(v) for v in t.n]:
+        return False
+    sp = g.spacing().double().numpy()
+    R = g.direction().double().numpy()
+    c = g.center().double().numpy()
+    W = float(np.abs(t.c).max() + np.abs(t.s * t.n).sum())
+    return bool(np.all(np.abs(sp - t.s) <= 64 * eps * t.s) and np.all(np.abs(R - t.R) <= 64 * eps) and np.all(np.abs(c - t.c) <= 64 * eps * W))
+
+
+@st.composite
+def target_specs(draw, D: int, size, rel: str):
+    """Derivation of a related target grid from a source grid of the given size (the same spec is applied to every field)."""
+    n = list(size)
+    cap = 12 if D == 2 else 7
+    spec = {"rel": rel, "via": "desc", "tac": draw(st.sampled_from([None, None, None, None, True, False]))}
+    if rel == "resize":
+        halve = [i for i, v in enumerate(n) if v % 2 == 0 and v >= 4]  # axes that downsample() halves to an integer size >= 2
+        double = [i for i, v in enumerate(n) if 2 * v <= cap]
+        vias = ["desc", "resize", "resize_args", "reshape"] + (["downsample"] * 2 if halve else []) + (["upsample"] * 2 if double else [])
+        via = draw(st.sampled_from(vias))
+        if via in ("downsample", "upsample"):
+            ok = halve if via == "downsample" else double
+            dims = draw(st.lists(st.sampled_from(ok), min_size=1, max_size=len(ok), unique=True).map(sorted))
+            if len(dims) == D and draw(st.booleans()):
+                dims = None  # default: all axes
+            f = (lambda v: v // 2) if via == "downsample" else (lambda v: 2 * v)
+            new = [f(v) if dims is None or i in dims else v for i, v in enumerate(n)]
+            spec["dims"] = dims
+        else:
+            new = draw(st.lists(st.integers(2, cap), min_size=D, max_size=D))
+            if new == n:
+                new[0] = n[0] + 1 if n[0] < cap else n[0] - 1
+        spec.update({"via": via, "size": new, "rac": draw(st.sampled_from([None, None, None, True, False]))})
+    elif rel == "crop":
+        form = draw(st.sampled_from(["num", "margin", "center", "narrow", "roi"]))
+        if form == "narrow" and max(n) < 3:
+            form = "num"
+        if form == "narrow":  # one axis only, samples removed at either end
+            d = draw(st.sampled_from([i for i, v in enumerate(n) if v >= 3]))
+            lo = draw(st.integers(0, n[d] - 2))
+            hi = draw(st.integers(0 if lo else 1, n[d] - 2 - lo))
+            num = [[lo, hi] if i == d else [0, 0] for i in range(D)]
+            via = draw(st.sampled_from(["narrow", "narrow", "narrow", "crop_num", "desc"]))
+        elif form == "margin":  # symmetric, positive = crop, negative = pad
+            mg = [draw(st.integers(-2, (v - 2) // 2)) for v in n]
+            if not any(mg):
+                mg[0] = -1
+            num = [[v, v] for v in mg]
+            via = draw(st.sampled_from(["crop_margin", "pad_margin", "crop_num", "desc"]))
+        elif form == "center":  # center_crop(size) / center_pad(size)
+            if draw(st.booleans()) and max(n) > 2:
+                new = [draw(st.integers(2, v)) for v in n]
+                if new == n:
+                    d = n.index(max(n))
+                    new[d] = n[d] - 1
+                num = [[(a - b) // 2, (a - b) - (a - b) // 2] for a, b in zip(n, new)]
+                via = "center_crop"
+            else:
+                new = [draw(st.integers(v, v + 3)) for v in n]
+                if new == n:
+                    new[0] = n[0] + 1
+                num = [[-((b - a) // 2), -((b - a) - (b - a) // 2)] for a, b in zip(n, new)]
+                via = "center_pad"
+        else:  # per axis and side; region_of_interest(start, size) removes only, crop(num)/pad(num) take mixed signs
+            low = 0 if form == "roi" and max(n) > 2 else -2
+            num = []
+            for v in n:
+                lo = draw(st.integers(low, min(2, v - 2)))
+                hi = draw(st.integers(low, min(2, v - 2 - lo)))
+                num.append([lo, hi])
+            if not any(v for p in num for v in p):
+                d = n.index(max(n))
+                num[d][1] = 1 if low == 0 else -1
+            via = "roi" if low == 0 else draw(st.sampled_from(["crop_num", "crop_num", "pad_num", "desc"]))
+        spec.update({"via": via, "num": num})
+    elif rel == "pool":
+        k = [draw(st.integers(1, min(3, v // 2))) for v in n]
+        if max(k) == 1:
+            d = n.index(max(n))
+            k[d] = 2 if n[d] >= 4 else 1
+        spec.update({"via": "avg_pool", "k": k, "scalar": draw(st.booleans())})  # scalar: kernel_size=k instead of (k, ...) if all equal
+    elif rel == "translate":
+        off = draw(st.lists(gen.qfloat(-2.0, 2.0, 0.25), min_size=D, max_size=D))
+        if not any(off):
+            off[0] = 0.5
+        spec["off"] = off
+    elif rel == "mirror":
+        spec["axis"] = draw(st.integers(0, D - 1))
+    elif rel == "acflip":
+        spec["via"] = draw(st.sampled_from(["desc", "api"]))
+        spec["tac"] = None  # set per target: the flag the source grid does not have
+    return spec
+
 
 @st.composite
 def sample_cases(draw):
     D = draw(gen.dims())
     case = draw(grid_sets(D, 10 if D == 2 else 6, near=True))
+    N = case["N"]
+    srcs = case["grids"] * N if len(case["grids"]) == 1 else case["grids"]
     g0 = case["grids"][0]
     m0 = ref.GridModel.from_desc(g0)
-    mode = draw(st.sampled_from(["single", "single", "list_same", "list_distinct", "coords"]))
-    nt = case["N"] if mode == "list_distinct" else 1
-    tsize = draw(st.lists(st.integers(2, 5 if D == 2 else 4), min_size=D, max_size=D))
-    targets = []
-    for _ in range(nt):
-        t = draw(one_grid(D, 2, 5))
-        t["size"] = list(tsize)
-        rel = draw(st.lists(gen.qfloat(0.15, 0.85, 0.01), min_size=D, max_size=D))
-        fac = draw(st.lists(gen.qfloat(0.15, 1.2, 0.01), min_size=D, max_size=D))
-        c = m0.points(np.array(rel) * (m0.n - 1), "grid", "world")
-        t["center"] = [round(float(v), 4) for v in c]
-        t["spacing"] = [float(f"{min(g0['spacing']) * f:.4g}") for f in fac]
-        targets.append(t)
+    mode = draw(st.sampled_from(["single", "single", "list_same", "list_one", "list_distinct", "list_distinct", "coords"]))
+    nt = N if mode == "list_distinct" else 1
+    rel = draw(st.sampled_from(REL_CLASSES))
+    targets, tspec = [], []
+    if rel in ("unrelated", "samesize"):
+        tsize = list(g0["size"]) if rel == "samesize" else draw(st.lists(st.integers(2, 5 if D == 2 else 4), min_size=D, max_size=D))
+        for _ in range(nt):
+            t = draw(one_grid(D, 2, 5))
+            t["size"] = list(tsize)
+            pos = draw(st.lists(gen.qfloat(0.15, 0.85, 0.01), min_size=D, max_size=D))
+            fac = draw(st.lists(gen.qfloat(0.15, 1.2, 0.01), min_size=D, max_size=D))
+            c = m0.points(np.array(pos) * (m0.n - 1), "grid", "world")
+            t["center"] = [round(float(v), 4) for v in c]
+            t["spacing"] = [float(f"{min(g0['spacing']) * f:.4g}") for f in fac]
+            targets.append(t)
+            tspec.append({"rel": rel, "via": "desc"})
+    else:
+        spec = draw(target_specs(D, g0["size"], rel))
+        for i in range(nt):
+            sp = dict(spec)
+            if rel == "acflip":
+                sp["tac"] = not srcs[i]["ac"]
+            targets.append(derive_target(srcs[i], sp))
+            tspec.append(sp)
     case.update({"D": D, "dtype": draw(gen.dtypes()), "field": draw(fields(D, ("affine", "affine", "smooth", "smoothl"))),
-                 "src": draw(st.sampled_from(["model", "model", "axes"])), "target": mode, "targets": targets,
-                 "mode": draw(st.sampled_from([None, "linear"])), "padding": draw(st.sampled_from([None, "zeros", "border"]))})
+                 "src": draw(st.sampled_from(["model", "model", "axes"])), "target": mode, "targets": targets, "tspec": tspec,
+                 "cshape": draw(st.sampled_from(["grid", "grid", "shared", "points", "points_shared"])),
+                 "route": draw(st.sampled_from(ROUTES)),
+                 "mode": draw(st.sampled_from([None, None, "linear", "linear", "nearest"])),
+                 "padding": draw(st.sampled_from([None, "zeros", "border"]))})
     return case
+
+
+def target_grids(case, gr, N: int):
+    """Models and deepali grids of the targets, one per field; derived grids are built with deepali's own Grid methods when
+    the case says so (and must then agree with the float64 model of the same derivation, else the case is skipped: the
+    derivation methods are C03's subject)."""
+    specs = case.get("tspec") or [{"rel": "unrelated", "via": "desc"}] * len(case["targets"])
+    mt = [ref.GridModel.from_desc(t) for t in case["targets"]]
+    gt = []
+    for i, (t, sp) in enumerate(zip(case["targets"], specs)):
+        g = api_target(gr[i], sp)
+        if g is None:
+            g = make_grid(t)
+        elif not grids_agree(g, mt[i]):
+            raise Skip(f"grid derived with Grid.{sp['via']}() deviates from the model of the derivation")
+        gt.append(g)
+    if len(mt) == 1:
+        mt, gt = mt * N, gt * N
+    return mt, gt, specs[0]
 
 
 def run_sample(case):
@@ -601,12 +941,11 @@ def run_sample(case):
     tmode = case["target"]
     if case["kind"] == "FlowField" and tmode.startswith("list"):
         tmode = "single"  # a single flow field takes a single grid
-    mt = [ref.GridModel.from_desc(t) for t in case["targets"]]
-    gt = [make_grid(t) for t in case["targets"]]
-    if len(mt) == 1:
-        mt, gt = mt * N, gt * N
+    mt, gt, spec = target_grids(case, gr, N)
     if case["kind"] == "FlowField" or tmode in ("single", "coords"):
         arg = gt[0]
+    elif tmode == "list_one":
+        arg = [gt[0]]  # a sequence of one grid: "a single grid which defines the sampling points for all images in the batch"
     else:
         arg = list(gt)
     kw = {}
@@ -614,29 +953,51 @@ def run_sample(case):
         kw["mode"] = case["mode"]
     if case["padding"] is not None:
         kw["padding"] = case["padding"]
-    affine = case["field"]["type"] == "affine"
-    expect, inside, bounds, signal = [], [], [], []
+    # linear interpolation reproduces an affine field; nearest-neighbour sampling only returns stored vectors (the sampling
+    # positions do not depend on the representation, so every representation picks the same neighbours)
+    affine = case["field"]["type"] == "affine" and case["mode"] != "nearest"
+    # sampling positions per field: the world points of its target grid, or (tensor argument) normalised coordinates w.r.t.
+    # the field's own grid in the cube convention of the batch (= align_corners flag of the first grid)
+    cshape = case.get("cshape", "grid") if tmode == "coords" else "grid"
+    cx = "cube_corners" if case["grids"][0]["ac"] else "cube"
+    coords = None
+    if tmode == "coords":
+        per_item = cshape in ("grid", "points") or case["kind"] == "FlowField"
+        cs = [mt[i].points(mt[i].index_points(), "grid", cx, ms[i]) for i in range(N if per_item else 1)]
+        if cshape.startswith("points"):
+            cs = [c.reshape(-1, D) for c in cs]
+        coords = torch.tensor(cs[0] if case["kind"] == "FlowField" else np.stack(cs), dtype=dt)
+        xws = [ms[i].points(cs[i if per_item else 0], cx, "world") for i in range(N)]
+    else:
+        xws = [t.world_points() for t in mt]
+    expect, nodes, inside, bounds, signal = [], [], [], [], []
     for i in range(N):
         m, t = ms[i], mt[i]
-        xw = t.world_points()
+        xw = xws[i]
         idx = m.points(xw, "world", "grid")
         inside.append(np.all((idx >= 0) & (idx <= m.n - 1), axis=-1))
+        uw = m.vectors(u_idx[i], "grid", "world")
         if affine:
             Mw, tw = world_affine(case["field"], m, i)
             expect.append((xw - m.c) @ Mw.T + tw)
         else:
             expect.append(None)
+        # positions that coincide with samples of the field: interpolation returns the stored vector there (any field)
+        near = np.rint(idx)
+        on = inside[i] & np.all(np.abs(idx - near) <= 1e-7, axis=-1)
+        k = np.clip(near, 0, m.n - 1).astype(int)
+        nodes.append((on, uw[tuple(k[..., d] for d in range(D - 1, -1, -1))]))
         # coordinate error (index units of the source grid) of the point map target cube -> world -> source cube
         W = max(float(np.abs(m.c).max() + np.abs(m.s * m.n).sum()), float(np.abs(t.c).max() + np.abs(t.s * t.n).sum()), 1.0)
         cpt = W / float(m.s.min()) + float(m.n.max()) + float(np.abs(idx).max())
         Lw = float(np.abs(m.A).sum(1).max())
         grad = field_lipschitz(case["field"], m) / (i + 1) * Lw
-        uw = m.vectors(u_idx[i], "grid", "world")
         if case["padding"] in (None, "zeros"):
             grad += float(np.abs(uw).max())  # zero padding: the field drops from its boundary value to 0 within one sample
         uterm = float((np.abs(uw).reshape(-1, D) @ (kappa(t) @ kappa(m)).T).max())
         bounds.append(KO * eps * (cpt * grad + uterm))
         signal.append(float(np.abs(uw).max()))
+    same_domain = all(a.same_domain_as(b) for a, b in zip(gr, gt))
     world = {}
     worst = 0.0
     for r in AX:
@@ -644,19 +1005,17 @@ def run_sample(case):
         f0 = f.tensor().clone()
         if tmode == "coords":
             # tensor of normalised coordinates w.r.t. the flow field's own grid: values are returned as stored (axes r, old grid)
-            ac0 = case["grids"][0]["ac"]
-            cx = "cube_corners" if ac0 else "cube"
-            if case["kind"] == "FlowField":
-                coords = torch.tensor(mt[0].points(mt[0].index_points(), "grid", cx, ms[0]), dtype=dt)
-            else:
-                coords = torch.tensor(np.stack([mt[i].points(mt[i].index_points(), "grid", cx, ms[i]) for i in range(N)]), dtype=dt)
             out = f.sample(coords, **kw)
             if type(out) is not torch.Tensor:
                 raise Violation("sample_coords_result_type", f"sample(Tensor) returned {type(out).__name__}")
             t = out.detach().double().numpy()
             io = [np.moveaxis(t, 0, -1)] if case["kind"] == "FlowField" else [np.moveaxis(x, 0, -1) for x in t]
             if len(io) != N:
-                raise Violation("sample_batch_size", f"sample(Tensor) returned {len(io)} items for N={N}")
+                raise Violation("sample_batch_size", f"sample(Tensor of shape {tuple(coords.shape)}) returned {len(io)} items for N={N}")
+            for i in range(N):
+                if io[i].shape != xws[i].shape:
+                    raise Violation("sample_coords_result_shape", f"sample(Tensor of shape {tuple(coords.shape)}): item {i} has shape "
+                                                                  f"{io[i].shape[:-1]} x {io[i].shape[-1]} channels, expected {xws[i].shape}")
             world[r] = [m.vectors(o, r, "world") for m, o in zip(ms, io)]
         else:
             out = f.sample(arg, **kw)
@@ -665,29 +1024,188 @@ def run_sample(case):
             io = items(out)
             rg = result_grids(out)
             if len(io) != N or len(rg) != N:
-                raise Violation("sample_single_grid_batch_size" if tmode == "single" else "sample_batch_size",
+                raise Violation("sample_single_grid_batch_size" if tmode in ("single", "list_one") else "sample_batch_size",
                                 f"{case['kind']}(N={N}, axes={r}).sample({tmode}): result has {len(io)} fields and {len(rg)} grids")
             io = check_struct(out, f, N, gt, r, dt, "sample")
             world[r] = [t.vectors(o, r, "world") for t, o in zip(mt, io)]
         if not torch.equal(f.tensor(), f0):
             raise Violation("input_modified", "sample() modified the flow field")
-        if affine:
-            for i in range(N):
-                msk = inside[i]
-                if msk.any():
-                    worst = max(worst, check_close(world[r][i][msk], expect[i][msk], bounds[i], "sample_world_affine",
-                                                   f"sample({tmode}) of world-affine field given in {r} axes, item {i}"))
+        for i in range(N):
+            msk = inside[i]
+            if affine and msk.any():
+                worst = max(worst, check_close(world[r][i][msk], expect[i][msk], bounds[i], "sample_world_affine",
+                                               f"sample({tmode}, {spec['rel']} target) of world-affine field given in {r} axes, item {i}"))
+            on, val = nodes[i]
+            if on.any():
+                worst = max(worst, check_close(world[r][i][on], val[on], bounds[i], "sample_node_values",
+                                               f"sample({tmode}, {spec['rel']} target) at positions of the field's own samples, field given in {r} axes, item {i}"))
     for r in AX:
         for i in range(N):
             worst = max(worst, check_close(world[r][i], world["cube"][i], 2 * bounds[i], "sample_representation_dependent",
-                                           f"world result of sample({tmode}) for field given in {r} axes vs cube axes, item {i}"))
+                                           f"world result of sample({tmode}, {spec['rel']} target) for field given in {r} axes vs cube axes, item {i}"))
     n_inside = int(sum(int(x.sum()) for x in inside))
+    n_nodes = int(sum(int(on.sum()) for on, _ in nodes))
     labs, objq, distinct = grid_labels(case)
     tobl = all(gen.grid_is_oblique(t) for t in case["targets"])
     tight = all(b <= 0.02 * sg for b, sg in zip(bounds, signal))
+    rel = spec["rel"]
+    if rel == "crop":
+        flat = [v for p in spec["num"] for v in p]
+        rel = "crop" if min(flat) >= 0 else "pad" if max(flat) <= 0 else "croppad"
+    tac = "".join("T" if t["ac"] else "F" for t in case["targets"])
     return {"ratio": worst, "nontrivial": objq and tobl and tight and n_inside >= 3 and (N == 1 or distinct),
             "labels": labs + ["field=" + case["field"]["type"], "target=" + tmode, f"pad={case['padding']}", "src=" + case["src"],
-                              "inside>=3" if n_inside >= 3 else "inside<3"]}
+                              f"mode={case['mode']}", "inside>=3" if n_inside >= 3 else "inside<3", "rel=" + rel, "via=" + spec.get("via", "desc"),
+                              "tac=" + tac, "same_domain" if same_domain else "other_domain", "route=" + case.get("route", "direct"),
+                              "nodes>=3" if n_nodes >= 3 else "nodes<3"]
+            + (["coords=" + cshape] if tmode == "coords" else [])
+            + ([f"resize_ac={spec.get('rac')}"] if spec["rel"] == "resize" else [])}
+
+
+# ---------------------------------------------------------------------------------------
+# (2d) resize / downsample / upsample / crop / pad / ...: the image operations a flow field inherits, which put the field on
+# another grid of the same family (same domain at another resolution; sub- or super-domain with the same spacing)
+
+
+@st.composite
+def regrid_cases(draw):
+    D = draw(gen.dims())
+    case = draw(grid_sets(D, 8 if D == 2 else 5, min_size=3))
+    fam = draw(st.sampled_from(["resize", "resize", "crop", "crop", "pool", "pool"]))
+    if fam == "pool" and max(case["grids"][0]["size"]) < 4:
+        fam = "crop"
+    spec = draw(target_specs(D, case["grids"][0]["size"], fam))
+    spec["tac"] = None
+    # Tensor-named operations (narrow, flip, indexing, ...) are C19's subject: their values are pinned to plain torch there
+    spec["via"] = {"desc": "resize" if fam == "resize" else "crop_num", "reshape": "resize", "narrow": "crop_num"}.get(spec["via"], spec["via"])
+    case.update({"D": D, "dtype": draw(gen.dtypes()), "field": draw(fields(D, ("affine", "affine", "smooth", "smoothl"))),
+                 "src": draw(st.sampled_from(["model", "model", "axes"])), "route": draw(st.sampled_from(ROUTES)), "op": spec,
+                 "r": draw(st.sampled_from(AX))})
+    return case
+
+
+def apply_regrid(f, spec: dict):
+    via = spec["via"]
+    if spec["rel"] == "resize":
+        kw = {} if spec.get("rac") is None else {"align_corners": spec["rac"]}
+        size = [int(v) for v in spec["size"]]
+        if via == "resize":
+            return f.resize(size, **kw)
+        if via == "resize_args":
+            return f.resize(*size, **kw)
+        if via == "downsample":
+            return f.downsample(1, dims=spec.get("dims"), **kw)
+        if via == "upsample":
+            return f.upsample(1, dims=spec.get("dims"), **kw)
+        raise ValueError(via)
+    if spec["rel"] == "pool":
+        k = [int(v) for v in spec["k"]]
+        return f.avg_pool(k[0] if len(set(k)) == 1 and spec.get("scalar") else tuple(k))
+    pairs = spec["num"]
+    num = [int(v) for p in pairs for v in p]
+    n = [int(v) for v in (f.grid().size())]
+    new = [int(a - p[0] - p[1]) for a, p in zip(n, pairs)]
+    if via == "crop_num":
+        return f.crop(num=num)
+    if via == "pad_num":
+        return f.pad(num=[-v for v in num])
+    if via == "crop_margin":
+        return f.crop(margin=[int(p[0]) for p in pairs])
+    if via == "pad_margin":
+        return f.pad(margin=[-int(p[0]) for p in pairs])
+    if via == "center_crop":
+        return f.center_crop(new)
+    if via == "center_pad":
+        return f.center_pad(new)
+    if via == "roi":
+        return f.region_of_interest([int(p[0]) for p in pairs], new)
+    raise ValueError(via)
+
+
+def run_regrid(case):
+    ms, gr = setup(case)
+    D, N, dt = case["D"], case["N"], tdtype(case["dtype"])
+    eps = _eps(dt)
+    spec = case["op"]
+    fam = spec["rel"]
+    u_idx = [index_field(case["field"], m, i) for i, m in enumerate(ms)]
+    srcs = case["grids"] * N if len(case["grids"]) == 1 else case["grids"]
+    sub = ""
+    eff = dict(spec)
+    if fam == "resize":
+        # align_corners=None: the flag of the batch, i.e. of its first grid, says whether corner points or the extent are kept
+        eff["rac"] = bool(case["grids"][0]["ac"]) if spec.get("rac") is None else bool(spec["rac"])
+        sub = ":corners" if eff["rac"] else ":extent"
+    elif fam == "pool":  # do the windows tile the grid, or is a remainder of samples dropped at the upper end?
+        sub = ":exact" if all(n % k == 0 for n, k in zip(case["grids"][0]["size"], spec["k"])) else ":remainder"
+    mt = [ref.GridModel.from_desc(derive_target(g, eff)) for g in srcs]
+    # linear interpolation and window means reproduce an affine field exactly (downsample/upsample smooth it near the boundary)
+    affine = case["field"]["type"] == "affine" and spec["via"] in ("resize", "resize_args", "avg_pool")
+    expect, nodes, inside, bounds, signal = [], [], [], [], []
+    for i in range(N):
+        m, t = ms[i], mt[i]
+        xw = t.world_points()
+        idx = m.points(xw, "world", "grid")
+        inside.append(np.all((idx >= 0) & (idx <= m.n - 1), axis=-1))
+        uw = m.vectors(u_idx[i], "grid", "world")
+        if affine:
+            Mw, tw = world_affine(case["field"], m, i)
+            expect.append((xw - m.c) @ Mw.T + tw)
+        near = np.rint(idx)
+        on = inside[i] & np.all(np.abs(idx - near) <= 1e-7, axis=-1) if fam == "crop" else np.zeros(idx.shape[:-1], dtype=bool)
+        k = np.clip(near, 0, m.n - 1).astype(int)
+        nodes.append((on, uw[tuple(k[..., d] for d in range(D - 1, -1, -1))]))
+        W = max(float(np.abs(m.c).max() + np.abs(m.s * m.n).sum()), float(np.abs(t.c).max() + np.abs(t.s * t.n).sum()), 1.0)
+        cpt = W / float(m.s.min()) + float(m.n.max()) + float(np.abs(idx).max())
+        Lw = float(np.abs(m.A).sum(1).max())
+        grad = field_lipschitz(case["field"], m) / (i + 1) * Lw + float(np.abs(uw).max())
+        uterm = float((np.abs(uw).reshape(-1, D) @ (kappa(t) @ kappa(m)).T).max())
+        bounds.append(KO * eps * (cpt * grad + uterm))
+        signal.append(float(np.abs(uw).max()))
+    world = {}
+    worst = 0.0
+    what = f"{spec['via']}()"
+    rr = case["r"]
+    # one representation per case (plus the WORLD-axes run as reference), so that each (representation, operation family,
+    # preserved domain) combination is judged by its own cases and carries its own violation kind
+    for r in dict.fromkeys([rr, "world"]):
+        f = given_in(case, ms, gr, dt, r, u_idx)
+        f0 = f.tensor().clone()
+        out = apply_regrid(f, spec)
+        if type(out) is not type(f):
+            raise Violation("regrid_result_type", f"{type(f).__name__}.{what} returned {type(out).__name__}")
+        io, rg = items(out), result_grids(out)
+        if len(io) != N or len(rg) != N:
+            raise Violation("regrid_batch_size", f"{case['kind']}(N={N}).{what}: result has {len(io)} fields and {len(rg)} grids")
+        for i in range(N):
+            if not grids_agree(rg[i], mt[i]) or tuple(rg[i].shape) != tuple(io[i].shape[:-1]):
+                raise Skip(f"result grid of {spec['via']}() deviates from the model of the derivation (C03/C05)")
+        if out.dtype != dt:
+            raise Violation("regrid_result_dtype", f"{what}: dtype {out.dtype} for input {dt}")
+        if not torch.equal(f.tensor(), f0) or f.axes() is not _A(r):
+            raise Violation("input_modified", f"{what} modified the flow field")
+        q = out.axes().value  # the representation the result says it is in (w.r.t. its own, new grid)
+        world[r] = [t.vectors(o, q, "world") for t, o in zip(mt, io)]
+    for i in range(N):
+        if affine and inside[i].any():
+            worst = max(worst, check_close(world[rr][i][inside[i]], expect[i][inside[i]], bounds[i], f"regrid_{fam}_world_affine:{rr}{sub}",
+                                           f"{what} of world-affine field given in {rr} axes, item {i}"))
+        on, val = nodes[i]
+        if on.any():
+            worst = max(worst, check_close(world[rr][i][on], val[on], bounds[i], f"regrid_{fam}_node_values:{rr}",
+                                           f"{what} of field given in {rr} axes at the samples it keeps, item {i}"))
+        worst = max(worst, check_close(world[rr][i], world["world"][i], 2 * bounds[i], f"regrid_{fam}_representation_dependent:{rr}{sub}",
+                                       f"world result of {what} for field given in {rr} axes vs world axes, item {i}"))
+    labs, objq, distinct = grid_labels(case)
+    tight = all(b <= 0.02 * sg for b, sg in zip(bounds, signal))
+    n_inside = int(sum(int(x.sum()) for x in inside))
+    rel = fam
+    if fam == "crop":
+        flat = [v for p in spec["num"] for v in p]
+        rel = "crop" if min(flat) >= 0 else "pad" if max(flat) <= 0 else "croppad"
+    return {"ratio": worst, "nontrivial": objq and tight and n_inside >= 3 and (N == 1 or distinct),
+            "labels": labs + ["field=" + case["field"]["type"], "op=" + spec["via"], "rel=" + rel, "src=" + case["src"], "r=" + rr,
+                              "route=" + case.get("route", "direct")] + (["keeps=" + sub[1:], f"resize_ac={spec.get('rac')}"] if fam == "resize" else ["windows=" + sub[1:]] if fam == "pool" else [])}
 
 
 # ---------------------------------------------------------------------------------------
@@ -699,7 +1217,8 @@ def sitk_cases(draw):
     D = draw(gen.dims())
     g = draw(one_grid(D, 2, 8 if D == 2 else 5))
     return {"D": D, "N": 1, "kind": "FlowField", "grids": [g], "r": draw(st.sampled_from(AX)), "q": draw(st.sampled_from(AX)),
-            "dtype": draw(gen.dtypes()), "field": draw(fields(D)), "file": draw(st.sampled_from([None, None, None, ".nrrd"]))}
+            "dtype": draw(gen.dtypes()), "field": draw(fields(D)), "file": draw(st.sampled_from([None, None, None, ".nrrd"])),
+            "route": draw(st.sampled_from(ROUTES))}
 
 
 def run_sitk(case):
@@ -751,7 +1270,7 @@ def run_sitk(case):
                 raise Violation("read_axes", f"read() reports axes {rd.axes()}")
             check_close(items(rd)[0], uw, bw, "read_world_vectors", "FlowField.read() of the written file")
     labs, objq, _ = grid_labels(case)
-    return {"ratio": worst, "nontrivial": objq and r != "world", "labels": labs + [f"r={r}", f"q={q}", "file=" + str(case["file"])]}
+    return {"ratio": worst, "nontrivial": objq and r != "world", "labels": labs + [f"r={r}", f"q={q}", "file=" + str(case["file"]), "route=" + case.get("route", "direct")]}
 
 
 FACETS = [
@@ -769,10 +1288,21 @@ FACETS = [
                "intensity change caused by the displacement",
           quick=350, thorough=8000, shards=16, quick_shards=2),
     Facet("sample", run_sample, strategy=sample_cases,
-          rule="resampling on a single / per-field target grid(s) overlapping the field, or at normalised coordinates; world-affine "
-               "(pinned inside the old sample hull) or smooth fields in all four representations; non-trivial = oblique "
+          rule="resampling on a single grid / a sequence of one / per-field target grid(s), or at normalised coordinates (per item or "
+               "shared, grid-shaped or point lists); targets are unrelated overlapping grids (any size or the source's size) or derived "
+               "from each field's own grid (resize/reshape/downsample/upsample with corners or extent kept, other align_corners flag, "
+               "crop/pad/center_crop/center_pad/region_of_interest/narrow, translated, mirrored; via Grid methods or a float64 "
+               "descriptor; labelled rel=, via=, tac=, same_domain); world-affine (pinned inside the old sample hull) or smooth "
+               "fields in all four representations, stored vectors at coinciding samples; non-trivial = oblique "
                "anisotropic source and oblique target grids, >= 3 pinned samples, N = 1 or distinct grids, bound <= 2 % of the displacement",
-          quick=350, thorough=8000, shards=16, quick_shards=3),
+          quick=600, thorough=10000, shards=16, quick_shards=3),
+    Facet("regrid", run_regrid, strategy=regrid_cases,
+          rule="inherited image operations that put the field on a grid derived from its own (resize / downsample / upsample: same domain, "
+               "other size; avg_pool: windows of k samples; crop / pad / center_crop / center_pad / region_of_interest: same spacing, other extent), field given "
+               "in all four representations, world result (read with the axes the result reports) compared with the WORLD-axes run, the "
+               "world-affine closed form (resize, avg_pool) and the stored vectors at kept samples (crop family); non-trivial = oblique anisotropic "
+               "grids, >= 3 pinned samples, N = 1 or distinct grids, bound <= 2 % of the displacement",
+          quick=400, thorough=6000, shards=16, quick_shards=2),
     Facet("sitk", run_sitk, strategy=sitk_cases,
           rule="FlowField in representation r exported by sitk()/sitk(axes=q)/write(.nrrd) and re-imported; non-trivial = oblique "
                "anisotropic grid and r != world",
